@@ -149,10 +149,18 @@ def case_arith(c):
         except Exception as e:
             V('raised', '%s: %s' % (type(e).__name__, e), site='backend.get_total_obs_num_samples')
         # the level helper counts whole fine spectra: n * samples-per-block // fftlength (exact integers)
-        for Nf in sorted(set((1, 2, 4, spb))):       # (spb: exactly one fine spectrum per block)
+        for Nf in sorted(set((1, 2, 4, spb, 16384))):       # (spb: exactly one fine spectrum per block; 16384 * branches exceeds int16 / int32 for many P)
             if n and (n * spb) % Nf == 0:
                 try:
                     lv = float(level_utils.get_level(10.0, be, Nf, num_blocks=t(n), length_mode='num_blocks'))
+                    # the FFT length as a numpy fixed-width integer gives the same level (the product with the branch count is
+                    # formed in Python integers)
+                    for ty_ in (np.int16, np.int32):
+                        if Nf <= np.iinfo(ty_).max:
+                            lv_t = float(level_utils.get_level(10.0, be, ty_(Nf), num_blocks=t(n), length_mode='num_blocks'))
+                            if lv_t != lv and not (lv_t != lv_t and lv != lv):
+                                V('get_level_typed_fftlength', 'get_level(fftlength=%s(%d))=%r, with a Python int %r (num_branches=%d)'
+                                  % (ty_.__name__, Nf, lv_t, lv, P), site='level_utils.get_level')
                     tch_x = n * spb // Nf
                     want_lv = (10.0 * (2.0 / (2 * npol)) ** 0.5 / tch_x ** 0.5) ** 0.5 / (P * Nf / 4.0) ** 0.5
                     if abs(lv - want_lv) > 1e-12 * want_lv:
@@ -164,12 +172,15 @@ def case_arith(c):
                     V('raised', '%s: %s' % (type(e).__name__, e), site='level_utils.get_level')
         outcomes.add('nb')
     # durations
-    for n in c['dur_n']:
-        for dq in c['dur_q']:
-            d = float((Fr(n) + F(dq)) * tpb_x)
+    durs = [float((Fr(n) + F(dq)) * tpb_x) for n in c['dur_n'] for dq in c['dur_q']]
+    # (sub-box) the same whole-block durations held as single-precision scalars: the VALUE such a scalar has (a few 1e-8 blocks
+    # off the boundary, either side) decides, not a single-precision evaluation of the block count
+    durs += [np.float32(float(Fr(n) * tpb_x)) for n in c['dur_n']]
+    for d in durs:
+        if True:
             if d <= 0:
                 continue
-            q = F(d) / tpb_x
+            q = F(float(d)) / tpb_x
             fl = q.numerator // q.denominator
             near = abs(q - round(q)) <= Fr(1, 10**9)
             allowed = {int(round(q)), int(round(q)) - 1} if near else {int(fl)}
